@@ -1,10 +1,12 @@
 (* C19 -- process exit status and liveness are reported faithfully.
    Only statements here; proofs live in Proofs/ExitStatusProofs.v (kernels = model, decode,
-   codes) and Proofs/ExitStatusWorld.v (cache / liveness / children set, all histories).
+   codes), Proofs/ExitStatusWorld.v (cache / liveness / children set, all histories) and
+   Proofs/ExitStatusBridge.v (wait over the oracle = the generated wait; the timed-join hang;
+   provenance of a cached code over whole histories).
    Gen.K_exitstatus and Gen.K_procguard are regenerated from /repo/billiard on every run. *)
 From Coq Require Import ZArith List Bool.
 From BV Require Import Lib.PyVal Lib.ExitStatusWait Gen.K_exitstatus Gen.K_procguard
-     Model.ExitStatus Proofs.ExitStatusProofs Proofs.ExitStatusWorld.
+     Model.ExitStatus Proofs.ExitStatusProofs Proofs.ExitStatusWorld Proofs.ExitStatusBridge.
 Import ListNotations.
 Open Scope Z_scope.
 
@@ -293,6 +295,93 @@ Theorem C19_start_ok : forall w i w', step w (OStart i) = (w', ONone) ->
 Proof. exact start_ok. Qed.
 Print Assumptions C19_start_ok.
 
+(* ---------------------------------------------------------------- audit follow-up *)
+(* Popen.wait as `step` uses it (sentinel wait + waitpid retry loop over the oracle) is the
+   generated-code-equal wait1 applied to the oracle's answers, whenever the loop returns *)
+Theorem C19_wait_over_oracle_is_wait1 : forall t pr p rest a a_other,
+    pop pr = Some p ->
+    loop_of (negb (wait_flag_nonblocking t)) pr = (rest, Some a) ->
+    let a_n := if wait_flag_nonblocking t then a else a_other in
+    let a_b := if wait_flag_nonblocking t then a_other else a in
+    pop (fst (wait_proc t pr p)) = Some (fst (wait1 p t (ready_of pr) a_n a_b)) /\
+    snd (wait_proc t pr p) = snd (wait1 p t (ready_of pr) a_n a_b).
+Proof. exact wait_proc_is_wait1. Qed.
+Print Assumptions C19_wait_over_oracle_is_wait1.
+
+Theorem C19_wait_over_oracle_is_code : forall t pr p rest a a_other pr' r,
+    pop pr = Some p ->
+    loop_of (negb (wait_flag_nonblocking t)) pr = (rest, Some a) ->
+    wait_proc t pr p = (pr', r) ->
+    let a_n := if wait_flag_nonblocking t then a else a_other in
+    let a_b := if wait_flag_nonblocking t then a_other else a in
+    exists p', pop pr' = Some p' /\
+      K_exitstatus.wait (emb p) (optv t) (PBool (ready_of pr))
+                        (a_err a_n) (a_pid a_n) (a_sts a_n) (a_err a_b) (a_pid a_b) (a_sts a_b)
+      = emb_res (p', r).
+Proof. exact wait_proc_is_generated_wait. Qed.
+Print Assumptions C19_wait_over_oracle_is_code.
+
+(* ... and it fails to return exactly when it made a blocking waitpid call that the oracle
+   never answers; a blocking waitpid is never answered iff the child is never reported *)
+Theorem C19_wait_hangs_iff : forall t pr p,
+    snd (wait_proc t pr p) = RHang <->
+    rc p = None /\ (t = None \/ ready_of pr = true) /\ wait_flag_nonblocking t = false /\
+    snd (loop_of true pr) = None.
+Proof. exact wait_proc_hang_iff. Qed.
+Print Assumptions C19_wait_hangs_iff.
+
+Theorem C19_blocking_waitpid_hangs_iff : forall l f,
+    snd (waitpid_loop true l f) = None <-> Forall quiet l /\ exists s, f = AAns 0 s.
+Proof. exact blocking_loop_hangs_iff. Qed.
+Print Assumptions C19_blocking_waitpid_hangs_iff.
+
+(* "join(timeout) returns within the timeout" is FALSE of the code (known finding
+   C19:timed-join-blocks-after-child-closed-sentinel): a timed join blocks iff the sentinel
+   was reported ready, the timeout is not 0 and waitpid never reports the child *)
+Theorem C19_timed_join_blocks_only_in_waitpid : forall w i t,
+    snd (step w (OJoin i (Some t))) = OHang ->
+    exists pr p, nth_error (procs w) i = Some pr /\ pop pr = Some p /\ rc p = None /\
+                 t <> 0 /\ ready_of pr = true /\ snd (loop_of true pr) = None.
+Proof. exact timed_join_blocks_only_in_waitpid. Qed.
+Print Assumptions C19_timed_join_blocks_only_in_waitpid.
+
+Theorem C19_timed_join_blocks : forall w i pr p t,
+    nth_error (procs w) i = Some pr -> creator pr = cur w -> pop pr = Some p -> rc p = None ->
+    t <> 0 -> ready_of pr = true -> snd (loop_of true pr) = None ->
+    snd (step w (OJoin i (Some t))) = OHang.
+Proof. exact timed_join_blocks. Qed.
+Print Assumptions C19_timed_join_blocks.
+
+Theorem C19_timed_join_within_timeout_refuted :
+  exists cur0 specs ops i t,
+    0 < t /\
+    let w := fst (run (init_world cur0 specs) ops) in
+    started w i = true /\ rc_of w i = None /\
+    snd (step w (OAlive i)) = OBool true /\
+    snd (step w (OJoin i (Some t))) = OHang.
+Proof. exact timed_join_within_timeout_refuted. Qed.
+Print Assumptions C19_timed_join_within_timeout_refuted.
+
+(* provenance of a cached code, over every history from the initial world and whichever
+   operation cached it (exitcode, is_alive, join, _cleanup in start / active_children) *)
+Theorem C19_exitcode_history_provenance : forall cur0 specs ops i c,
+    rc_of (fst (run (init_world cur0 specs) ops)) i = Some c ->
+    exists cr pre0 fin0 rdy0 sts,
+      nth_error specs i = Some (cr, pre0, fin0, rdy0) /\
+      (In (WAns (pid_of i) sts) pre0 \/ fin0 = AAns (pid_of i) sts) /\ decode sts = DOk c.
+Proof. exact exitcode_history_provenance. Qed.
+Print Assumptions C19_exitcode_history_provenance.
+
+(* exitcode None / is_alive() true until the child has ended, over whole histories *)
+Theorem C19_running_child_has_no_code : forall cur0 specs ops i cr pre0 fin0 rdy0,
+    nth_error specs i = Some (cr, pre0, fin0, rdy0) -> never_reported i pre0 fin0 ->
+    let w := fst (run (init_world cur0 specs) ops) in
+    rc_of w i = None /\
+    (forall c, snd (step w (OCode i)) <> OInt c) /\
+    (started w i = true -> snd (step w (OAlive i)) <> OBool false).
+Proof. exact running_child_has_no_code. Qed.
+Print Assumptions C19_running_child_has_no_code.
+
 (* ---------------------------------------------------------------- non-vacuity *)
 (* one child, pid 1000; waitpid says "not yet" three times, then "killed by SIGTERM with core
    flag", and would afterwards say "exited 3" (never looked at).  History: start, exitcode,
@@ -329,3 +418,29 @@ Example C19_witness_decode :
   decode 4991 = DAssert /\ decode (os_status_exit 255) = DOk 255 /\
   decode (os_status_sig 9 false) = DOk (-9) /\ decode (os_status_sig 11 true) = DOk (-11).
 Proof. vm_compute. repeat split; reflexivity. Qed.
+
+(* the hypotheses of C19_timed_join_blocks hold in a reachable world (the orphaned sentinel),
+   those of C19_running_child_has_no_code on a history with a second child that does end,
+   and the bridge on a timed join that sees the child end *)
+Example C19_witness_orphaned_sentinel :
+  let w := fst (run (init_world 100 [(100, [], AAns 0 0, [])]) [OStart 0%nat]) in
+  (exists pr p, nth_error (procs w) 0%nat = Some pr /\ creator pr = cur w /\ pop pr = Some p /\
+                rc p = None /\ ready_of pr = true /\ snd (loop_of true pr) = None) /\
+  map fst (snd (run w [OAlive 0%nat; OJoin 0%nat (Some 0); OCode 0%nat; OJoin 0%nat (Some 5)]))
+  = [OBool true; ONone; ONone; OHang].
+Proof.
+  split; [|vm_compute; reflexivity].
+  eexists; eexists; vm_compute; repeat split; reflexivity.
+Qed.
+
+Example C19_witness_history_provenance :
+  let specs := [(100, [WAns 0 0], AAns 0 0, [false]); (100, [WAns 0 0; WAns 1001 (9 + 128)], AAns 1001 0, [])] in
+  never_reported 0%nat [WAns 0 0] (AAns 0 0) /\
+  map fst (snd (run (init_world 100 specs)
+                    [OStart 0%nat; OStart 1%nat; OAlive 1%nat; OActive; OCode 1%nat; OJoin 0%nat (Some 5);
+                     OCode 0%nat; OAlive 0%nat]))
+  = [ONone; ONone; OBool true; OList [0%nat]; OInt (-9); ONone; ONone; OBool true].
+Proof.
+  split; [|vm_compute; reflexivity].
+  split; intros sts H; [destruct H as [H|[]]|]; discriminate.
+Qed.
